@@ -1,5 +1,6 @@
 import CTV.Basic.Proto
 import CTV.Rfc6962.Wire
+import CTV.Model.CtWire
 /-! ctvmodel C04: answers every line of the C04 harness from the RFC transcription (`Rfc.*`) alone. -/
 namespace CTV.Driver.C04
 open CTV CTV.Proto
@@ -189,18 +190,19 @@ def handle (line : String) : String :=
   | "TOSCT" :: f =>
     match kvNat f "v", kvHex f "id", kvNat f "ts", kvHex f "ext64", kvHex f "sig" with
     | some v, some id, some t, some e64, some sig =>
-      if id.length ≠ 32 then "err"
-      else match b64Decode (asciiOf e64), Rfc.complete (Rfc.decDigitallySigned sig) with
-        | some ext, some d => s!"ok v={v} id={hexOrDash id} ts={t} ext={hexOrDash ext} {showDS d}"
-        | _, _ => "err"
+      match b64Decode (asciiOf e64) with
+      | none => "err"
+      | some ext =>
+        match CtWire.toSCT v id t ext sig with
+        | some s => s!"ok v={s.version} id={hexOrDash s.logID} ts={s.timestamp} ext={hexOrDash s.extensions} {showDS s.signature}"
+        | none => "err"
     | _, _, _, _, _ => "bad-op"
   | "TOSTH" :: f =>
     match kvNat f "size", kvNat f "ts", kvHex f "root", kvHex f "sig" with
     | some n, some t, some root, some sig =>
-      if root.length ≠ 32 then "err"
-      else match Rfc.complete (Rfc.decDigitallySigned sig) with
-        | some d => s!"ok size={n} ts={t} root={hexOrDash root} {showDS d}"
-        | none => "err"
+      match CtWire.toSTH n t root sig with
+      | some s => s!"ok size={s.treeSize} ts={s.timestamp} root={hexOrDash s.rootHash} {showDS s.signature}"
+      | none => "err"
     | _, _, _, _ => "bad-op"
   | _ => "bad-op"
 
